@@ -338,6 +338,8 @@ def client_equiv(a, b):
     """equality of canonical client answers, tolerating ±1 retransmission at a lifetime edge"""
     if a == b:
         return True
+    if "blackhole-unavailable" in (a, b):
+        return True     # the environment could not build a SYN black hole: the case says nothing
     ga, gb = a.split(" | "), b.split(" | ")
     if len(ga) != len(gb):
         return False
@@ -512,6 +514,9 @@ def client_c11_oracle(req, ans):
             if not f.get("res", "").startswith("err:"):
                 return "an invalid query was not refused with an error"
             continue
+        res = f.get("res", "")
+        if not sent and res.startswith("err:") and not res.startswith(("err:Timeout", "err:BadParam", "err:IoError")):
+            return "a valid query (name accepted by both parsers, buffer of %d bytes) was refused before anything was sent: %s" % (buflen, res[4:60])
         if f.get("udp0", "-") != "-" and bytes.fromhex(f["udp0"]) != exp:
             return "UDP query bytes differ from what was asked: %s" % f["udp0"][:120]
         if f.get("tcp0", "-") != "-":
@@ -1036,7 +1041,8 @@ PROPS = {
                    "statements with an independent encoder.",
         level_note="Complete for the model. Trusted: Lean kernel; model of utils.rs/writer.rs/name.rs/inline_name.rs validated by the "
                    "`text` and `roundtrip` streams.",
-        streams=[dict(name="roundtrip"), dict(name="text", quick=20000), dict(name="name", quick=10000)],
+        streams=[dict(name="roundtrip"), dict(name="text", quick=20000), dict(name="name", quick=10000),
+                 dict(name="c11", impl_oracle=client_c11_oracle)],
         explanation="C05: parse_agree, encoder_accepts_valid, valid_encodes, encode_decode, decode_valid, decode_reparse, check_total, "
                     "decoded_len; oracle: decode→re-parse must succeed with an equal name, encode→decode must return the canonical "
                     "spelling within 255 octets, encoder and parsers must accept the same strings.",
@@ -1306,7 +1312,7 @@ PROPS = {
                    "theorem (`noUB`). Trusted: Lean kernel; model of every unchecked site in cursor.rs/macros.rs/utils.rs.",
         streams=[dict(name="readerx"), dict(name="xmark"), dict(name="reader", quick=8000, impl_oracle=reader_oracle),
                  dict(name="rdata", quick=10000), dict(name="nameeq", quick=6000),
-                 dict(name="query", quick=10000, impl_oracle=query_oracle)],
+                 dict(name="query", quick=10000, impl_oracle=query_oracle), dict(name="cmp", quick=10000)],
         explanation="C17: api_no_ub and companions; `readerx` = arbitrary call orders with stale markers; the write side "
                     "(the unchecked stores of the query encoder, reached from every client's query calls) is C11.writer_safe "
                     "with the `query` stream on tight buffers.",
